@@ -64,14 +64,63 @@ def repo_sources():
 
 
 _tree_hash = None
+_src_root = None
 
 
 def tree_hash():
-    """Content hash of everything of /repo the checks compile against."""
-    global _tree_hash
+    """Content hash of everything of /repo the checks compile against.  Computed once per process from
+    the bytes read at that moment; the very same bytes are written to a snapshot directory under .cache
+    (`src_root()`), and every compilation / extraction of this process reads the snapshot: a check is
+    therefore self-consistent even if /repo is edited while it runs, and a cache entry keyed by this hash
+    was always built from exactly these sources."""
+    global _tree_hash, _src_root
     if _tree_hash is None:
-        _tree_hash = file_hash(repo_sources())[:20]
+        blobs = []
+        h = hashlib.sha256()
+        for p in sorted(repo_sources()):
+            h.update(p.encode())
+            try:
+                with open(p, 'rb') as f:
+                    b = f.read()
+                h.update(b)
+                blobs.append((os.path.relpath(p, REPO), b))
+            except OSError:
+                h.update(b'<missing>')
+        _tree_hash = h.hexdigest()[:20]
+        root = os.path.join(CACHE, 'src_' + _tree_hash)
+        if not os.path.isdir(root):
+            tmp = root + '.tmp%d' % os.getpid()
+            for rel, b in blobs:
+                q = os.path.join(tmp, rel)
+                os.makedirs(os.path.dirname(q), exist_ok=True)
+                with open(q, 'wb') as f:
+                    f.write(b)
+            try:
+                os.rename(tmp, root)
+            except OSError:          # another process won the race: same content by construction
+                import shutil
+                shutil.rmtree(tmp, ignore_errors=True)
+        _src_root = root
+        _prune_snapshots(keep=root)
     return _tree_hash
+
+
+def src_root():
+    """Snapshot of /repo's current working tree (include/, development/, tools/join.py) taken when this
+    process first looked at it."""
+    tree_hash()
+    return _src_root
+
+
+def _prune_snapshots(keep, limit=6):
+    try:
+        ds = [os.path.join(CACHE, d) for d in os.listdir(CACHE) if d.startswith('src_') and '.tmp' not in d]
+        ds = sorted((d for d in ds if d != keep), key=os.path.getmtime)
+        import shutil
+        for d in ds[:-limit] if len(ds) > limit else []:
+            shutil.rmtree(d, ignore_errors=True)
+    except OSError:
+        pass
 
 
 def verif_hash(*rel):
@@ -168,7 +217,7 @@ def lean_imports(module):
 def regenerate_facts():
     """Source-derived facts (DESIGN §5.4): rewrite Generated/*.lean from the current /repo.
     Returns (ok, message)."""
-    hdr = os.path.join(REPO, 'include', 'hfsm2', 'machine.hpp')
+    hdr = os.path.join(src_root(), 'include', 'hfsm2', 'machine.hpp')
     dst = os.path.join(LEAN_DIR, 'Hfsm', 'Generated', 'RngFacts.lean')
     tmp = dst + '.new'
     st, out, err = sh([sys.executable, os.path.join(VERIF, 'tools', 'extract_facts_rng.py'), hdr, tmp], timeout=120)
@@ -271,7 +320,7 @@ FAST_FLAGS = ['-O0']
 
 
 def repo_include(dev=False):
-    return os.path.join(REPO, 'development' if dev else 'include')
+    return os.path.join(src_root(), 'development' if dev else 'include')
 
 
 def build_cxx(src_path, flags, tag, extra_hash='', dev=False, src_text=None):
